@@ -4,6 +4,7 @@ import RainModel.Model.WebseedCap
 import RainModel.Model.TokenBucket
 import RainModel.Lemmas.TokenBucket
 import RainModel.Model.Semaphore
+import RainModel.Lemmas.Semaphore
 /-!
 C17 — configured resource limits hold at all times and reservations balance.
 Property theorems only; helper lemmas live in `Lemmas/`.
@@ -160,17 +161,7 @@ end Bucket
 
 /-! ### Parallel read / write semaphore -/
 section Sem
-open Rain.Semaphore (Act)
-
-/-- Inductive invariant of the semaphore protocol. -/
-def SemInv (s : Rain.Semaphore.State) : Prop :=
-  s.cur = s.acq + s.w3 + s.holding ∧ s.cur ≤ s.n ∧ s.waiting = s.w1 + s.acq ∧ s.active = s.holding + s.rel
-
-theorem semInv_step (s s' : Rain.Semaphore.State) (a : Act) (h : SemInv s) (hs : Rain.Semaphore.step s a = some s') : SemInv s' := by
-  obtain ⟨h1, h2, h3, h4⟩ := h
-  cases a <;> simp only [Rain.Semaphore.step] at hs <;> split at hs <;> first | cases hs | skip
-  all_goals
-    refine ⟨?_, ?_, ?_, ?_⟩ <;> simp only <;> omega
+open Rain.Semaphore (Act SemInv semInv_step)
 
 /-- **semaphore_bound.** For every size `n ≥ 0`, every number of goroutines and every interleaving
 of their atomic steps: the number of goroutines between the return of `Wait` and their call of
